@@ -30,6 +30,7 @@ def plan(tier, seed):
     sh = [{"kind": "iban", "countries": c, "tier": tier, "_name": f"iban-{i}"} for i, c in enumerate(gen.chunk(cs, 14 if tier == "quick" else 42))]
     sh.append({"kind": "bic", "tier": tier, "_name": "bic"})
     sh.append({"kind": "contracts", "tier": tier, "_name": "contracts"})
+    sh.append({"kind": "xproc", "tier": tier, "_env": {"PYTHONHASHSEED": "12"}, "_name": "xproc"})
     return sh
 
 
@@ -147,6 +148,12 @@ def run_iban(shard, mon, S):
                     mon.viol("bban_constructor_result_not_of_requested_country", {**w, "other": other}, [other, bban], [o6.value.country_code, str(o6.value)])
             if ib.bban.country_code != cc or str(ib.bban) != bban:
                 mon.viol("decomposed_iban_changed_after_use_as_constructor_argument:BBAN", w, [s, cc], [str(ib), getattr(ib.bban, "country_code", None)])
+            # validation asked of the finished object again - with the national check too, which may well fail -
+            # leaves the object as it was
+            for f_ in (lambda: ib.validate(validate_bban=True), lambda: ib.bban.validate_national_checksum(), lambda: ib.validate(), lambda: ib.is_valid):
+                observe(f_)
+            if ib.bban.country_code != cc or str(ib.bban) != bban or str(ib) != s:
+                mon.viol("decomposed_iban_changed_by_a_later_validation", w, [s, cc], [str(ib), getattr(ib.bban, "country_code", None)])
             bban_id = id(ib.bban)
             observe(S.IBAN, ib)
             observe(S.IBAN, ib, allow_invalid=True)
@@ -226,8 +233,55 @@ def run_shard(shard, out_base):
         return suite.run_contract_shard("C11", out_base)
     mon = Mon("C11")
     S = judge.lib()
+    if shard["kind"] == "xproc":
+        run_xproc(shard, mon, S)
+        return mon.result(out_base)
     (run_iban if shard["kind"] == "iban" else run_bic)(shard, mon, S)
     return mon.result(out_base)
+
+
+def run_xproc(shard, mon, S):
+    """Objects that were built, hashed and compared in another process (other string-hash seed) and arrived here
+    by pickle decompose and re-assemble like home-grown ones."""
+    import os  # noqa: PLC0415
+    import pickle  # noqa: PLC0415
+    import subprocess  # noqa: PLC0415
+    import tempfile  # noqa: PLC0415
+
+    from vf.props import c16  # noqa: PLC0415
+
+    c16.ensure_user_classes(S)
+    fd, path = tempfile.mkstemp(prefix="vf-c11-", suffix=".pkl")
+    os.close(fd)
+    try:
+        e = dict(os.environ, PYTHONHASHSEED="4711", PYTHONPATH=env.VERIF, PYTHONDONTWRITEBYTECODE="1")
+        p = subprocess.run([env.PY, "-c", c16.WRITER, path, str(pickle.HIGHEST_PROTOCOL)], env=e, capture_output=True, text=True, timeout=300)
+        if p.returncode != 0:
+            mon.inconclusive.append("writer process failed: " + p.stderr[-200:])
+            return
+        with open(path, "rb") as fp:
+            doc = pickle.load(fp)
+    finally:
+        os.unlink(path)
+    for obj, s in zip(doc["objs"], doc["strs"]):
+        tn = type(obj).__name__
+        mon.ev()
+        mon.distinct(("xproc", tn, s))
+        w = {"object": [tn, s], "from_process_with_hash_seed": 4711}
+        if tn in ("IBAN", "UserIBAN") and observe(lambda: obj.is_valid).value:
+            for name, y in (("from_bban", observe(S.IBAN.from_bban, obj.country_code, obj.bban)), ("from_bban_text", observe(S.IBAN.from_bban, obj.country_code, str(obj.bban))), ("reparse", observe(S.IBAN, s))):
+                if not y.ok or not (y.value == obj) or not (obj == y.value) or y.value != obj or str(y.value) != s:
+                    mon.viol(f"reassembly_not_equal_to_object_from_other_process:{name}", w, s, y.brief())
+            if obj.country_code + obj.checksum_digits + str(obj.bban) != s:
+                mon.viol("iban_parts_do_not_concatenate", w, s, [obj.country_code, obj.checksum_digits, str(obj.bban)])
+            mon.tally("objects_from_other_process_reassembled")
+        elif tn in ("BIC", "UserBIC") and observe(lambda: obj.is_valid).value:
+            parts = obj.bank_code + obj.country_code + obj.location_code + (obj.branch_code or "")
+            y = observe(S.BIC, parts)
+            if parts != s or not y.ok or not (y.value == obj) or not (obj == y.value):
+                mon.viol("reassembly_not_equal_to_object_from_other_process:bic", w, s, [parts, y.brief()])
+            mon.tally("objects_from_other_process_reassembled")
+    mon.sample({"cross_process": "writer PYTHONHASHSEED=4711", "objects": len(doc["objs"])})
 
 
 def finish(m, tier, seed):
